@@ -417,6 +417,36 @@ def plain_doc(rng, d=None, c=None, r=None, cells=None):
     return dict(text=text, d=d, c=c, r=r, cells=cells, after=bool(after), skips=len(body) - r)
 
 
+TAB_SEPS = ["\t", "\t", "\t\t", " \t", "\t ", " \t "]
+TAB_PADS = ["", "", "\t", " ", "\t\t", " \t"]
+TAB_BLANK_LINES = ["", "\t", " ", "\t\t", " \t "]
+
+
+def tab_doc(rng, d=None, c=None, r=None):
+    """the TAB-delimited members of C02's quantifier ("blank- or tab-separated plain decimal numbers"): DLM TAB declared, cells
+    separated by tabs (possibly repeated, possibly with blanks around them), tab / blank padding at both ends of a line, blank
+    lines that hold only tabs.  Outside the theorems' `PlainData` (default delimiter), inside the oracle's domain."""
+    d = rng.randint(0, 6) if d is None else d
+    c = rng.randint(1, 8) if c is None else c
+    r = rng.randint(1, 6) if r is None else r
+    cells = [[plain_token(rng) for _ in range(c)] for _ in range(r)]
+    head = header(vers=rng.choice(["2.0", "1.2", "2.0"]), wrap="NO", null=rng.choice(["-999.25", "-999", "0", None]), dlm="TAB",
+                  declared=(None if (d == 0 and rng.random() < 0.5) else names(d)))
+    body = [lay_row(rng, row, seps=TAB_SEPS, pads=TAB_PADS) for row in cells]
+    if rng.random() < 0.5:
+        out = []
+        for i, l in enumerate(body):
+            if rng.random() < 0.2:
+                out.append(rng.choice(TAB_BLANK_LINES + COMMENT_LINES))
+            out.append(l)
+        if rng.random() < 0.2:
+            out.append(rng.choice(TAB_BLANK_LINES + COMMENT_LINES))
+        body = out
+    after = rng.choice(AFTER)
+    text = assemble(head, rng.choice(TITLES[:4]), body, after, eol=rng.choice(["\n", "\n", "\r\n"]), final_newline=rng.random() < 0.8)
+    return dict(text=text, d=d, c=c, r=r, cells=cells, after=bool(after), skips=len(body) - r)
+
+
 JUNK_ROWS = ["1 2", "3 4", "5", "", "  ", "#c", "1 2 3", "-999.25 -999.25", "1 -999", "1-2", "2018-05-22 7", "1,5 2", "1,2", "1\t2",
              "abc 2", "1 x", " 9 10 \r", "1.2.3 4", "\"a b\" 2", "-9.9925e2 -999.2500", "7 8", "1 2 # t", "'q' 5", "\"", "1 \"x",
              "NaN.5 2", "1.5-2.5 3", "\x1a", "1\x1a2 3", "nan 1", "inf -inf", "1_0 2", "1,,2", ", ,", "\t", "1\t\t2", "5 \t 6",
